@@ -13,7 +13,7 @@ RULE = (
     "a case is (total, connect, read) from {unset, None, 0.5, 2, 10}^3 x placement {pool Timeout, request Timeout, "
     "both (pool-level decoys), pool float, request float, request float over pool-level decoys} x connect duration d from {0, .25, .5, 1, 2, 5, 20} on a "
     "virtual clock x history {fresh connection, reused connection, second request on a new connection after a first "
-    "one with its own d} x server {answers, stays silent} x scheme {http, https over the identity TLS layer}; the quick "
+    "one with its own d} x server {answers, stays silent} x scheme {http, https over the identity TLS layer, https through a CONNECT tunnel of a ProxyManager}; the quick "
     "tier already enumerates this grid completely (distinct by construction). Plus the invalid-value table and the "
     "pure Timeout arithmetic grid; thorough adds Hypothesis-drawn floats (monotonicity / bound checks). Non-trivial = "
     "total is set together with connect or read, or d > 0, or it is a second request."
@@ -21,7 +21,7 @@ RULE = (
 ASSUMPTIONS = [
     "what the in-memory socket is told (settimeout before connect, timeout in force at the first response recv) is what a real socket would enforce",
     "time passes only while connecting (virtual clock advanced by the scripted connect duration) or while a recv waits",
-    "proxies are outside this property's quantifier (CONNECT is timed separately)",
+    "through a CONNECT tunnel the connect phase is the connection to the proxy (the proxy answers CONNECT at once); the read timeout in force while the CONNECT reply is awaited is not asserted",
 ]
 EXHAUSTIVE = {"quick": True, "thorough": True}
 
@@ -73,6 +73,12 @@ class Srv(fakenet.Endpoint):
         self.clock.advance(d)
 
     def handle(self, sock, req):
+        if req.method == b"CONNECT":
+            # acting as the proxy: the tunnel is established at once (time passes only while connecting)
+            sock.state["tunnel_host"] = req.target.rsplit(b":", 1)[0].decode("latin-1")
+            self.requests.pop()
+            self.reply(sock, b"HTTP/1.1 200 Connection established\r\n\r\n")
+            return
         n = len(self.requests)
         last = req.target.endswith(b"/last")
         if self.silent and last:
@@ -125,7 +131,14 @@ def run_http(case) -> list[Failure]:
         else:
             pool_kw["timeout"] = Timeout(total=DECOY[0], connect=DECOY[1], read=DECOY[2])
             req_kw["timeout"] = real
-        if scheme == "https":
+        mgr = None
+        if scheme == "https-tunnel":
+            # the same clauses through a CONNECT tunnel: the connect phase is the connection to the proxy
+            from vlib import nulltls
+
+            mgr = urllib3.ProxyManager("http://proxy.test:3128", retries=False, ssl_context=nulltls.NullTLSContext("c19"), **pool_kw)
+            pool = mgr.connection_from_url("https://h.test/")
+        elif scheme == "https":
             from vlib import nulltls
 
             ctx = nulltls.NullTLSContext("c19")
@@ -139,8 +152,10 @@ def run_http(case) -> list[Failure]:
                 try:
                     r1 = pool.urlopen("GET", "/first", **req_kw)
                     r1.data
-                except (ConnectTimeoutError, ReadTimeoutError):
-                    raise core.InvalidCase  # d_first is chosen so that this cannot happen
+                except Exception as e:  # noqa: BLE001
+                    # d_first is chosen to lie within the connect timeout in effect and the server answers at once
+                    fails.append(Failure("spurious-timeout", {**sig_base, "kind": "first-request", "exc": type(e).__name__}, f"{case}: the first request (connect takes {d_first}s) failed with {type(e).__name__}: {e}"))
+                    return fails
             n_before = len(net.events)
             socks_before = len(net.sockets)
             outcome = None
@@ -154,6 +169,8 @@ def run_http(case) -> list[Failure]:
                 outcome = "read-timeout"
             except BaseException as e:  # noqa: BLE001
                 outcome = "exc:" + type(e).__name__
+                if scheme == "https-tunnel" and type(e).__name__ == "ProxyError" and isinstance(getattr(e, "original_error", None), ConnectTimeoutError):
+                    outcome = "connect-timeout"  # a timeout while connecting to the proxy is reported as ProxyError(ConnectTimeoutError)
             evs = net.events[n_before:]
             if history == "reused":
                 d_eff, connected = 0, False
@@ -216,6 +233,8 @@ def run_http(case) -> list[Failure]:
                 fails.append(Failure("pool-timeout-mutated", sig_base, f"{case}: pool.timeout changed from {snapshot} to {pool.timeout!r}"))
         finally:
             pool.close()
+            if mgr is not None:
+                mgr.clear()
     return fails
 
 
@@ -386,7 +405,7 @@ def _grid(schemes):
 
 
 def shards(tier, seed):
-    schemes = ["http"] + (["https"] if _have_nulltls() else [])
+    schemes = ["http"] + (["https", "https-tunnel"] if _have_nulltls() else [])
     allc = list(_grid(schemes))
     out = []
     for a, b in core.split_range(len(allc), 32):
